@@ -72,7 +72,7 @@ func (root *Root) ResolveExecutable(
 	}
 	op := exe.Ops[opName]
 	if op == nil {
-		if len(exe.Ops) == 1 {
+		if len(opName) == 0 && len(exe.Ops) == 1 {
 			for _, o := range exe.Ops {
 				op = o
 				break
